@@ -48,10 +48,12 @@ var trustedMenu = map[string]*[]string{
 	"FD00::1":               {"FD00::1"},
 	"2001:db8:1:0:0:0:0:10": {"2001:db8:1:0:0:0:0:10"},
 	"::ffff:10.0.0.1":       {"::ffff:10.0.0.1"},
+	// an IPv6 address whose last four bytes are those of 10.0.0.1: another address
+	"fd00::a00:1": {"fd00::a00:1"},
 }
 
 var trustedOrder = []string{"unset", "empty", "10.0.0.1", "10.0.0.0/8", "fd00::/8", "::1", "nonsense", "300.1.1.1/8", "nonsense+10.0.0.1",
-	"2001:db8:1::10", "FD00::1", "2001:db8:1:0:0:0:0:10", "::ffff:10.0.0.1"}
+	"2001:db8:1::10", "FD00::1", "2001:db8:1:0:0:0:0:10", "::ffff:10.0.0.1", "fd00::a00:1"}
 
 // 10.0.0.17 / 10.0.0.100: addresses whose text begins with the text of a listed address
 var peers = []string{"10.0.0.1:4711", "10.9.9.9:4711", "10.0.0.17:4711", "10.0.0.100:4711", "192.168.1.1:4711", "[fd00::1]:4711", "[::1]:4711", "[fe80::1%eth0]:4711", "@",
@@ -687,7 +689,7 @@ func Check() *engine.Check {
 	return &engine.Check{
 		ID:    "C09",
 		Level: "exploration",
-		Rule: "full product of 13 trusted_proxies lists (unset, empty, IPv4/IPv6 addresses also in upper case, expanded and IPv4-mapped notation, CIDR ranges, invalid entries) x 12 peer addresses " +
+		Rule: "full product of 14 trusted_proxies lists (unset, empty, IPv4/IPv6 addresses also in upper case, expanded and IPv4-mapped notation, CIDR ranges, invalid entries) x 12 peer addresses " +
 			"(listed, in range, unlisted, IPv6, IPv6 with zone, unparsable) x all 2^7 subsets of Forwarded/X-Forwarded-For/-Proto/-Host/-Uri/-Path/-Method " +
 			"(each with a value that would select a different rule) x [thorough: 4 header-name spellings x single/repeated fields] through the real " +
 			"decision and proxy handler chains (first middleware = real trustedproxy) with rules keyed on scheme/host/method/path and a finalizer " +
